@@ -22,17 +22,35 @@ static size_t hx_align_off;
 #define HX_POISON(p, n) ((void) 0)
 #define HX_UNPOISON(p, n) ((void) 0)
 #endif
+/* Layout: [16-byte header holding n][hx_align_off pad][n data bytes][16 canary bytes (plain builds only)]. In plain builds a write past
+   the end of any parsed buffer — invisible to ASan when it comes from inline assembly, and landing in malloc slack otherwise — corrupts the
+   canary; hx_release notices and the dispatcher appends HEAP-CANARY-CORRUPT to the op's output line (the model never prints that). Under ASan
+   the buffer stays tight against the redzone instead (no canary), so one-byte over-reads are still reported. */
+#if defined(__SANITIZE_ADDRESS__)
+#define HX_CANARY 0
+#else
+#define HX_CANARY 16
+#endif
+static int hx_canary_bad;
 void *hx_alloc(size_t n) {
-    unsigned char *base = (unsigned char *) malloc(hx_align_off + (n ? n : 1));
+    size_t pre = 16 + hx_align_off;
+    unsigned char *base = (unsigned char *) malloc(pre + (n ? n : 1) + HX_CANARY);
     if (base == NULL) return NULL;
-    if (hx_align_off) HX_POISON(base, hx_align_off);
-    return base + hx_align_off;
+    memcpy(base, &n, sizeof n);
+    if (HX_CANARY) memset(base + pre + n, 0xc5, HX_CANARY);
+    HX_POISON(base + 8, pre - 8);
+    return base + pre;
 }
 void hx_release(void *p) {
+    size_t pre = 16 + hx_align_off, n, i; unsigned char *base;
     if (p == NULL) return;
-    if (hx_align_off) HX_UNPOISON((unsigned char *) p - hx_align_off, hx_align_off);
-    free((unsigned char *) p - hx_align_off);
+    base = (unsigned char *) p - pre;
+    HX_UNPOISON(base + 8, pre - 8);
+    memcpy(&n, base, sizeof n);
+    for (i = 0; i < HX_CANARY; i++) if (base[pre + n + i] != 0xc5) hx_canary_bad = 1;
+    free(base);
 }
+static void hx_endline(FILE *o) { if (hx_canary_bad) { fputs(" HEAP-CANARY-CORRUPT", o); hx_canary_bad = 0; } fputc('\n', o); }
 void hx_set_align(void) { const char *e = getenv("HX_ALIGN"); hx_align_off = e ? (size_t) (atoi(e) & 63) : 0; }
 int hx_hex(const char *s, buf_t *b) {
     size_t l, i;
@@ -111,14 +129,14 @@ void hx_dispatch(char *line, FILE *o) {
     }
     if (strncmp(argv[0], "aead.", 5) == 0) {
         int r = hx_aead(argv[0], argc - 1, argv + 1, o);
-        if (r <= 0) { if (r < 0) fputs("bad-args", o); fputc('\n', o); free(argv); return; }
+        if (r <= 0) { if (r < 0) fputs("bad-args", o); hx_endline(o); free(argv); return; }
     }
     for (t = 0; tables[t] && !handled; t++) {
         const hx_op *op;
         for (op = tables[t]; op->name; op++) {
             if (strcmp(op->name, argv[0]) == 0) {
                 if (op->fn(argc - 1, argv + 1, o) != 0) fputs("bad-args", o);
-                fputc('\n', o);
+                hx_endline(o);
                 handled = 1; break;
             }
         }
